@@ -30,4 +30,16 @@ BoundsFrom(buf, p, sh) ==
   ELSE LET LEN == U16(buf, p + o + 3, TRUE) IN
        IF LEN < 4 \/ p + o + LEN > Len(buf) THEN {p} ELSE {p} \cup BoundsFrom(buf, p + o + LEN, sh)
 Bounds(buf, sh) == BoundsFrom(buf, 0, sh)
+
+\* ---- the whole session as the list of calls a driver makes (repeat until the call is not Ok; at most `fuel` calls)
+RECURSIVE RunSession(_, _, _, _, _, _)
+RunSession(buf, pos, sh, flt, api, fuel) ==
+  IF fuel = 0 THEN <<>>
+  ELSE LET st == IF api = "parse" THEN StepParse(buf, pos, sh, flt) ELSE StepConsume(buf, pos)
+           d == st.d
+           rec == [pos |-> pos, v |-> d.v, consumed |-> IF OkClass(d.v) THEN d.consumed ELSE 0,
+                   n |-> IF d.v = "filtered" THEN d.n ELSE IF d.v = "msg" THEN d.m.h.plen ELSE 0,
+                   \* latitude (DESIGN 4.1): a dropped message whose payload is malformed may also be rejected
+                   alt |-> IF api = "parse" /\ d.v = "filtered" /\ ParseAt(buf, pos, sh, None).v = "rej" THEN "rej" ELSE d.v]
+       IN IF st.live THEN <<rec>> \o RunSession(buf, st.pos, sh, flt, api, fuel - 1) ELSE <<rec>>
 =============================================================================
